@@ -106,6 +106,33 @@ def campaign(c):
             elif 'error' not in out:
                 c.violation('io:no-diagnostic:' + name, '%s: no diagnostic printed' % name, dict(args=args, out=out))
             c.case(('other', name), dict(kind=name, rc=rc, out=out[-160:]))
+        # the same faults with paths that are not valid UTF-8 / contain spaces, newlines, non-ASCII characters: a path is bytes
+        db = os.fsencode(d)
+        for tagp, odd in (('latin1', b'caf\xe9'), ('space', b'with space'), ('newline', b'new\nline'), ('utf8', 'dätei'.encode()), ('invalid', b'\xff\xfe')):
+            cli = os.fsencode(core.CLI)
+            okdir = os.path.join(db, odd + b'-ok'); os.mkdir(okdir)
+            # input paths are taken as text by the argument parser (invalid UTF-8 there is a usage error, exit status 2, before any
+            # I/O): odd bytes go into the input name only when they are valid UTF-8; output paths are paths and may hold any bytes
+            valid = tagp in ('space', 'newline', 'utf8')
+            oddin = os.path.join(okdir, odd + b'.rsyn') if valid else os.path.join(db, b'plain-' + tagp.encode() + b'.rsyn')
+            open(oddin, 'wb').write(src)
+            cases2 = {
+                'ok-odd-paths': ([cli, b'--out-dir', okdir, oddin], True),
+                'missing-outdir': ([cli, b'--out-dir', os.path.join(db, odd + b'-missing', b'deeper'), os.fsencode(inp)], False),
+                'missing-outdir-odd-input': ([cli, b'--out-dir', os.path.join(db, odd + b'-missing'), oddin], False),
+                'parent-is-file': ([cli, b'-o', os.path.join(os.fsencode(inp), odd + b'.pcap'), os.fsencode(inp)], False),
+                'missing-input': ([cli, b'--out-dir', okdir, os.path.join(db, (odd if valid else b'plain') + b'-nope.rsyn')], False),
+            }
+            for name, (argv, want_ok) in cases2.items():
+                p = subprocess.run(argv, capture_output=True, cwd=d, timeout=60)
+                name = '%s:%s' % (name, tagp)
+                if b'panicked' in p.stderr or p.returncode not in (0, 1):
+                    c.violation('io:panic:' + name, '%s: panic / abnormal exit %d: %s' % (name, p.returncode, p.stderr[-160:].decode('utf-8', 'replace')), dict(args=[a.decode('utf-8', 'replace') for a in argv[1:]]))
+                elif (p.returncode == 0) != want_ok:
+                    c.violation(('io:claimed-success:' if not want_ok else 'io:spurious-failure:') + name, '%s: exit status %d' % (name, p.returncode), dict(args=[a.decode('utf-8', 'replace') for a in argv[1:]], out=p.stdout.decode('utf-8', 'replace')[-200:]))
+                elif not want_ok and b'error' not in p.stdout:
+                    c.violation('io:no-diagnostic:' + name, '%s: no diagnostic printed' % name, dict(args=[a.decode('utf-8', 'replace') for a in argv[1:]]))
+                c.case(('oddpath', name), dict(kind=name, rc=p.returncode))
         # the same faults inside a batch (src/cli.rs `resynth()`, Model/Batch.lean): the failing input first, in the middle and
         # last among inputs that succeed - the run as a whole has to report the failure (exit status) whatever follows it,
         # the failing input gets a diagnostic and leaves no output, and the good inputs are still compiled
